@@ -399,10 +399,38 @@ func init() {
 			g.penvNames = sortedKeys(penv)
 			c := c14case{doc: g.signableStep(), penv: penv, repo: sx.Pick(rng, []string{"git@github.com:o/r.git", "https://example.org/r", "", "repo"})}
 			key := keys[i%len(keys)]
+			penvBefore := fmt.Sprint(penv)
 			base, cs, bad := c14payload(c, key)
 			if bad != "" {
 				stat("C14", "skipped-"+bad[:12])
 				continue
+			}
+			// the payload is a function of (algorithm, step, pipeline env, repository): signing must not change
+			// the env it was given, or the payload of the NEXT step signed with the same env map would depend on
+			// which steps were signed before it
+			if after := fmt.Sprint(penv); after != penvBefore {
+				oracleFail("C14", "sign-changes-env", cs, fmt.Sprintf("Sign changed the pipeline env it was given: %s -> %s", penvBefore, after))
+				continue
+			}
+			if noEnv := c.clone(); noEnv.doc.has("env") {
+				noEnv.doc.del("env")
+				shared := map[string]string{}
+				fresh := map[string]string{}
+				for k, v := range penv {
+					shared[k], fresh[k] = v, v
+				}
+				withShared := c.clone()
+				withShared.penv = shared
+				c14payload(withShared, key) // a step with its own env is signed first, with the shared map ...
+				noEnv.penv = shared
+				pShared, _, b1 := c14payload(noEnv, key) // ... then a step without one, with the same map
+				noEnv.penv = fresh
+				pFresh, _, b2 := c14payload(noEnv, key)
+				if b1 == "" && b2 == "" && !bytes.Equal(pShared, pFresh) {
+					oracleFail("C14", "payload-depends-on-history", cs, fmt.Sprintf("the same step, env and repository give different payloads depending on what was signed before with the same env map:\n%s\n%s", pFresh, pShared))
+					continue
+				}
+				stat("C14", "history-pairs")
 			}
 			fmt.Fprintf(out, "CASE\tC14\t%s\t%s\t1\n", sx.String(cs), sx.String(sx.A(string(base))))
 			// determinism over repeated runs (Go map iteration)
